@@ -70,6 +70,7 @@ fn permutations(n: usize) -> Vec<Vec<usize>> {
 
 fn run(ctx: &mut Ctx) {
     let macs: Vec<[u8; 6]> = PWB_BOARDS.iter().map(|b| b.1).collect();
+    let macs = &macs;
     let n = ctx.tier.pick(1600, 40_000);
     ctx.cases("reassembly", n, |ctx, i, rng| {
         // payload: mostly valid, sometimes invalid (then all orders must fail with BadPayload alike)
@@ -294,6 +295,54 @@ fn run(ctx: &mut Ctx) {
                     fault(ctx, if delta > 0 { "chunk boundary shifted: non-final chunk larger" } else { "chunk boundary shifted: non-final chunk smaller" }, l, rng);
                 }
             }
+        }
+    });
+    // ---- messages of more than 32768 / close to 65536 chunks: id comparison across half the 16-bit range
+    ctx.cases("many-chunks", ctx.tier.pick(4, 16), |ctx, i, rng| {
+        let rs = 511u16;
+        let nch = [32usize, 33, 62, 63][(i % 4) as usize]; // 63 channels x 511 samples = 64 820 bytes: the largest message whose 1-byte chunks still have distinct 16-bit ids
+        let ids: Vec<u16> = (1..=nch as u16).collect();
+        let mac = macs[(i as usize * 5) % macs.len()];
+        let p = Pwb::new('A', mac, rs, ids.iter().map(|c| (*c, super::c05::samples(rng, rs, i))).collect());
+        let payload = p.encode();
+        let raw = p.chunks(pwb_device_id(&mac), 0, 1);
+        let chunks: Vec<Chunk> = raw.iter().map(dec).collect();
+        let nn = chunks.len();
+        let direct = match guard(|| PwbV2Packet::try_from(&payload[..])) {
+            Ok(Ok(pk)) => Ok(format!("{:?}", pk)),
+            _ => Err("BadPayload".to_string()),
+        };
+        let mut orders: Vec<(&str, Vec<usize>)> = Vec::new();
+        orders.push(("in order", (0..nn).collect()));
+        orders.push(("reversed", (0..nn).rev().collect()));
+        orders.push(("second half first", (nn / 2..nn).chain(0..nn / 2).collect()));
+        orders.push(("even ids then odd ids", (0..nn).step_by(2).chain((1..nn).step_by(2)).collect()));
+        orders.push(("last quarter, first quarter, middle", (3 * nn / 4..nn).chain(0..nn / 4).chain(nn / 4..3 * nn / 4).collect()));
+        let mut sh: Vec<usize> = (0..nn).collect();
+        rng.shuffle(&mut sh);
+        orders.push(("random shuffle", sh));
+        let mut far: Vec<usize> = Vec::new();
+        for k in 0..nn / 2 {
+            far.push(k);
+            far.push(k + nn / 2);
+        }
+        if nn % 2 == 1 {
+            far.push(nn - 1);
+        }
+        orders.push(("ids k and k + n/2 alternating", far));
+        for (name, ord) in orders {
+            let list: Vec<Chunk> = ord.iter().map(|k| chunks[*k].clone()).collect();
+            let Some(o) = reassemble(ctx, &list) else { return };
+            let mut d = Digest::new();
+            d.bytes(name.as_bytes());
+            d.bytes(&payload[..64]);
+            d.u64(nn as u64);
+            ctx.nontrivial(d.0);
+            if o != direct {
+                ctx.violation("reassembly outcome differs from direct decode of the concatenation", format!("{} chunks of 1 byte, arrival order `{}`: got {:?}", nn, name, o.as_ref().map(|s| s.len()).map_err(|e| e.clone())), json!({"n_chunks": nn, "order": name}));
+                return;
+            }
+            ctx.count("orders of messages with > 16000 chunks reassembled identically");
         }
     });
     ctx.require("chunk lists reassembled successfully in every order", 50);
